@@ -601,7 +601,9 @@ def get_binsize_all_bins(ctx):
                           reason='a plain assignment in the loop keeps only the last chromosome\'s last bin',
                           key=f'{R}|cooler.util.get_binsize|last-bin-of-final-chromosome-only')
             # orientation: last <= common width
-            oks = [x for x in T.walk(c) if x[0] == 'cmp' and x[1] in ('<=', '<') and last_bin_terms(x[2])]
+            # (non-strict: a last bin as wide as the others is the normal case of a chromosome whose
+            # length is a multiple of the width)
+            oks = [x for x in T.walk(c) if x[0] == 'cmp' and x[1] == '<=' and last_bin_terms(x[2])]
             ctx.check(bool(oks), R, f'return#{k}.direction', ctx.where(fa, r), found=c,
                       expected='last bin width <= common width', reason='the last bin may be shorter, never longer')
         # the value returned is the common width of the non-last bins
